@@ -30,6 +30,7 @@ import (
 	"sync/atomic"
 	"time"
 
+	"github.com/syndtr/goleveldb/leveldb"
 	"github.com/syndtr/goleveldb/leveldb/storage"
 	"verifharness/lib/dbh"
 	"verifharness/lib/vlib"
@@ -62,7 +63,7 @@ func main() {
 		return
 	}
 	var kcases []string
-	for _, part := range []string{"corpus", "loop", "vl", "db"} {
+	for _, part := range []string{"corpus", "loop", "vl", "db", "sweep"} {
 		if part == "corpus" && !strings.Contains(a.Extra, "corpus=") {
 			continue
 		}
@@ -575,6 +576,10 @@ func runDBCase(c DBCase) (string, map[string]int) {
 		return runManifestFault(c)
 	case "txniter":
 		return runTxnIter(c)
+	case "sweep":
+		leveldb.VerifSetCommitHook(stampHook)
+		d, st, _ := runSweep(c)
+		return d, st
 	}
 	return "unknown scenario " + c.Scenario, nil
 }
